@@ -387,9 +387,22 @@ func runC05Needs(c *Ctx) {
 	p := c.P
 	fn := p.Method("RuleExpression", "populateDependantNeedsTypes")
 	calc := p.Method("RuleExpression", "calcNeedsType")
+	if fn == nil && calc != nil {
+		fn = calc // the helper was merged into its only caller: the same obligations are read off calcNeedsType
+	}
 	if fn == nil || calc == nil {
 		c.anchorMissing("(*RuleExpression).populateDependantNeedsTypes / calcNeedsType")
 		return
+	}
+	// the object that is filled: the `out` parameter of the helper, or - merged - the object calcNeedsType returns
+	filled := map[ssa.Value]bool{}
+	if fn != calc && len(fn.Params) > 1 {
+		filled[fn.Params[1]] = true
+	}
+	for _, b := range fn.Blocks {
+		if ret, ok := b.Instrs[len(b.Instrs)-1].(*ssa.Return); ok && fn == calc && len(ret.Results) == 1 {
+			filled[ret.Results[0]] = true
+		}
 	}
 	// (1) not recursive
 	rec := false
@@ -415,7 +428,11 @@ func runC05Needs(c *Ctx) {
 	}
 	// (2) Job.Needs is only read from the job parameter
 	okNeeds, n := true, 0
-	for _, f := range []*ssa.Function{fn, calc} {
+	needFns := []*ssa.Function{fn}
+	if calc != fn {
+		needFns = append(needFns, calc)
+	}
+	for _, f := range needFns {
 		eachInstr(f, func(_ *ssa.BasicBlock, _ int, in ssa.Instruction) {
 			fa, ok := in.(*ssa.FieldAddr)
 			if !ok || fieldAddrName(fa) != "Job.Needs" {
@@ -451,7 +468,7 @@ func runC05Needs(c *Ctx) {
 			return
 		}
 		f, base := fieldLoad(mu.Map)
-		if f != "ObjectType.Props" || base != ssa.Value(fn.Params[1]) {
+		if f != "ObjectType.Props" || !filled[base] {
 			return
 		}
 		construct := "(*RuleExpression).populateDependantNeedsTypes|entry"
@@ -600,7 +617,7 @@ func runC05Strict(c *Ctx) {
 	// (b) every Loose() in the rule is guarded by an expression test
 	occ := map[string]int{}
 	for _, fn := range p.Funcs {
-		if !strings.HasSuffix(p.File(fn.Pos()), "/rule_expression.go") {
+		if !strings.HasSuffix(p.unitFile(fn), "/rule_expression.go") {
 			continue
 		}
 		for _, call := range findCalls(fn, "(*ObjectType).Loose") {
